@@ -40,6 +40,7 @@ type c20Case struct {
 	Err    string `json:"error"`
 	Frag1  int    `json:"fragment_1"`
 	Frag2  int    `json:"fragment_2"`
+	Frag3  int    `json:"fragment_3,omitempty"`
 	Legacy bool   `json:"legacy_format"`
 	Debug  bool   `json:"debug_exposed"`
 	Writer string `json:"writer"`
@@ -53,7 +54,7 @@ func c20RunErr(c c20Case, res *WRes) {
 	viol := func(fp, what, exp string, obs any) {
 		res.violate(Violation{Property: "C20", Fingerprint: fp, What: what, Engine: "c20err", Case: c, Expected: exp, Observed: obs})
 	}
-	nasty := c20Frags[c.Frag1] + c20Frags[c.Frag2]
+	nasty := c20Frags[c.Frag1] + c20Frags[c.Frag2] + c20Frags[c.Frag3]
 	var err error
 	base := c20Errors[c.Err]
 	var wantCode, wantStatus = "error", 500 // what ErrorToRFC6749Error makes of a non-RFC error
@@ -553,12 +554,21 @@ func init() {
 					}
 				}
 				for _, f2 := range f2s {
-					c := c20Case{Err: name, Frag1: f1, Frag2: f2, Legacy: j.Legacy, Debug: j.Debug, Writer: j.Writer}
-					n := len(res.Viol)
-					c20RunErr(c, res)
-					res.Evals++
-					if len(res.Viol) == n {
-						res.sample(c)
+					f3s := []int{0}
+					if j.Depth >= 3 && f1 != 0 && f2 != 0 {
+						f3s = nil
+						for f3 := range c20Frags {
+							f3s = append(f3s, f3)
+						}
+					}
+					for _, f3 := range f3s {
+						c := c20Case{Err: name, Frag1: f1, Frag2: f2, Frag3: f3, Legacy: j.Legacy, Debug: j.Debug, Writer: j.Writer}
+						n := len(res.Viol)
+						c20RunErr(c, res)
+						res.Evals++
+						if len(res.Viol) == n {
+							res.sample(c)
+						}
 					}
 				}
 			}
@@ -593,9 +603,9 @@ func init() {
 		return res.Viol, nil
 	}
 	registerCheck("C20", "exploration", 150*time.Second, 25*time.Minute, func(r *Run) {
-		depth := 1
+		depth := 2
 		if !r.Quick() {
-			depth = 2
+			depth = 3
 		}
 		var jobs []any
 		jobs = append(jobs, c20Job{Store: true})
